@@ -10,10 +10,11 @@ BUILD = os.path.join(VERIF, 'build')
 COMMON = '-std=c++11 -g1 -mcx16 -pthread -DKHIZMAX_LIBCDS_VERIF -I%s/include -I%s -Wno-deprecated-declarations' % (VERIF, REPO)
 BUILDS = {
     # name: (compiler, cxxflags, ldflags)
-    'dbg':  ('g++', '-O1 -D_DEBUG -DCDS_ENABLE_HPSTAT', ''),
-    'rel':  ('g++', '-O2 -DNDEBUG', ''),
-    'asan': ('g++', '-O1 -D_DEBUG -fsanitize=address,undefined -fno-omit-frame-pointer -fno-sanitize-recover=all', '-fsanitize=address,undefined'),
-    'tsan': ('g++', '-O1 -fsanitize=thread -fno-omit-frame-pointer -Wno-tsan', '-fsanitize=thread'),
+    # -fno-lifetime-dse: keep the poison marks that destructors of harness types write into dying objects
+    'dbg':  ('g++', '-O1 -D_DEBUG -DCDS_ENABLE_HPSTAT -fno-lifetime-dse', ''),
+    'rel':  ('g++', '-O2 -DNDEBUG -fno-lifetime-dse', ''),
+    'asan': ('g++', '-O1 -D_DEBUG -fsanitize=address,undefined -fno-omit-frame-pointer -fno-sanitize-recover=all -fno-lifetime-dse', '-fsanitize=address,undefined'),
+    'tsan': ('g++', '-O1 -fsanitize=thread -fno-omit-frame-pointer -Wno-tsan -fno-lifetime-dse', '-fsanitize=thread'),
 }
 LIBSRC = ['dhp.cpp', 'dllmain.cpp', 'hp.cpp', 'hp_thread_local.cpp', 'init.cpp', 'thread_data.cpp', 'topology_linux.cpp', 'urcu_gp.cpp', 'urcu_sh.cpp']
 
